@@ -2,6 +2,7 @@ package props
 
 import (
 	"fmt"
+	"math"
 	"testing"
 
 	"pgregory.net/rapid"
@@ -29,8 +30,13 @@ func GenC04() *rapid.Generator[C04Case] {
 		}
 		c.F1 = rapid.SampledFrom([]float64{0, 0.5, 1, 2.25, 7}).Draw(t, "f1")
 		c.F2 = rapid.SampledFrom([]float64{0, 0.5, 1, 2.25, 7}).Draw(t, "f2")
-		if rapid.IntRange(0, 2).Draw(t, "tie") == 0 {
+		switch rapid.IntRange(0, 5).Draw(t, "tie") {
+		case 0, 1:
 			c.F2 = c.F1
+		case 2: // almost a tie: the fitter parent is still the fitter one
+			c.F2 = math.Nextafter(c.F1, 100)
+		case 3:
+			c.F2 = c.F1 + 1e-12
 		}
 		return c
 	})
@@ -81,6 +87,9 @@ func checkCrossoverChild(P1, P2, ch GenomeSpec, method string, f1, f2 float64, r
 		if _, ok := g2[inn]; !ok {
 			differ = true
 		}
+	}
+	if f1 != f2 && math.Abs(f1-f2) < 1e-9 {
+		rec.Class("fitness values differ by less than 1e-9")
 	}
 	if f1 == f2 {
 		rec.Class(map[int]string{0: "tie with equal gene counts", 1: "tie, first parent smaller", 2: "tie, second parent smaller"}[donor])
